@@ -1,4 +1,5 @@
 """C22 Exit codes reflect only unsuppressed failures."""
+import os
 from vlib import clilib as C
 from vlib.framework import Check, Outcome
 from vlib.sf import FORMAT_RULES, Crash, guard
@@ -193,7 +194,16 @@ class C22(Check):
             gcase = dict(case, cli=dict(cli, rules=FORMAT_RULES))
         # the two CLI runs work in the background (own project copies) while the ground truth is computed in-process
         with C.Project(case, "r") as p1, C.Project(case, "r") as p2:
-            jobs = [("path", C.CliJob(args + [p1.fname], p1.root)),
+            path_args = [p1.fname]
+            if cmd == "lint" and len(case.get("sql", "")) % 2 == 0:
+                # several path arguments: a clean (comment-only) file in a directory of its own is given *after* the
+                # target; the exit status must still be the target's
+                os.makedirs(os.path.join(p1.root, "zz_clean"), exist_ok=True)
+                with open(os.path.join(p1.root, "zz_clean", "clean.sql"), "w") as fh:
+                    fh.write("-- nothing to see\n")
+                path_args = [p1.fname, "zz_clean"]
+                out.label("lint-several-paths")
+            jobs = [("path", C.CliJob(args + path_args, p1.root)),
                     ("stdin", C.CliJob(args + ["-", "--stdin-filename", p2.fname], p2.root, stdin=p2.data))]
             gt = guard(C.ground_truth, gcase)
             results = [(inp, j.result()) for inp, j in jobs]
